@@ -33,6 +33,7 @@ from gemseo.core._process_flow.base_flow import BaseFlow
 from gemseo.core.discipline.io import IO
 from gemseo.core.grammars.factory import GrammarType as _GrammarType
 from gemseo.utils.constants import READ_ONLY_EMPTY_DICT
+from gemseo.utils.data_conversion import deepcopy_dict_of_arrays
 from gemseo.utils.string_tools import MultiLineString
 from gemseo.utils.string_tools import pretty_str
 
@@ -251,15 +252,15 @@ class BaseDiscipline(BaseMonitoredProcess):
         if not cache_entry.outputs:
             return False
 
+        # Do not hand out the arrays stored in the cache:
+        # the caller may modify the returned arrays in place.
+        cache_output = deepcopy_dict_of_arrays(cache_entry.outputs)
+
         # Non simple caches require NumPy arrays.
         if not isinstance(self.cache, SimpleCache):
-            # Do not modify the cache entry which is mutable.
-            cache_output = cache_entry.outputs.copy()
             to_value = self.io.output_grammar.data_converter.convert_array_to_value
             for output_name, value in cache_output.items():
                 cache_output[output_name] = to_value(output_name, value)
-        else:
-            cache_output = cache_entry.outputs
 
         # TODO: Fix this workaround for input_data that does not match strictly
         #  the cache one.
